@@ -74,7 +74,9 @@ class ResolveOuterVars(ast.NodeTransformer):
                 return res
             defined.update(has.intersection(undefined))
             undefined = [name for name in undefined if name not in has]
-        return [asty.Nonlocal(node, names=node.names)] if node.names else []
+        # If every name was elided (they're all `let`-bound), leave a
+        # `pass` behind so an enclosing loop or function body isn't empty.
+        return [asty.Nonlocal(node, names=node.names)] if node.names else [asty.Pass(node)]
 
 
 class NodeRef:
